@@ -157,6 +157,7 @@ def c07(run):
 
 def c08(run):
     quick = run.tier == "quick"
+    run.promote = {"accept"}     # C08 owns the acceptance verdicts of the routing trace specification
     run.build_harness()
     rt_negative(run, "reg", "D11", inv="AcceptIff")
     rt_family(run, "reg_2x2", "reg", 2, 2)
